@@ -28,9 +28,11 @@ def T():
 
 
 def specs_for(method):
-    from plinio.cost import params, ops, params_bit, ops_bit
-    a, b = (params_bit, ops_bit) if method == 'MPS' else (params, ops)
-    return {'single_a': a, 'single_b': b, 'dict': {'a': a, 'b': b}}
+    from plinio.cost import params, ops, params_bit, ops_bit, params_no_bias, ops_no_bias
+    if method == 'MPS':
+        return {'single_a': params_bit, 'single_b': ops_bit, 'dict': {'a': params_bit, 'b': ops_bit}}
+    # every built-in float cost model, the "no bias" variants alone and inside a dictionary
+    return {'single_a': params, 'single_b': ops_no_bias, 'dict': {'a': params_no_bias, 'b': ops}}
 
 
 def kind(mod):
@@ -213,10 +215,13 @@ def _build_base(cfg):
     sp = specs_for(method)[cfg['spec0']]
     if method == 'PIT':
         from plinio.methods import PIT
+        # conv + (fused) BN, a DEPTHWISE conv (its cost model is chosen by a constraint of the specification), a pointwise conv,
+        # an excluded (plain, shared, parameterised) Linear
         net = nn.Sequential(nn.Conv2d(3, 6, 3, padding=1), nn.BatchNorm2d(6), nn.ReLU(), nn.Dropout(0.25),
-                            nn.Conv2d(6, 5, 3, padding=1), nn.ReLU(), nn.AdaptiveAvgPool2d(1), nn.Flatten(), nn.Linear(5, 3))
+                            nn.Conv2d(6, 6, 3, padding=1, groups=6), nn.ReLU(),
+                            nn.Conv2d(6, 5, 1), nn.ReLU(), nn.AdaptiveAvgPool2d(1), nn.Flatten(), nn.Linear(5, 3))
         net.train(cfg['train'])
-        m = PIT(net, input_shape=(3, 6, 6), cost=sp, full_cost=cfg['full_cost'], exclude_names=('8',))
+        m = PIT(net, input_shape=(3, 6, 6), cost=sp, full_cost=cfg['full_cost'], exclude_names=('10',))
         with torch.no_grad():
             for _, q in m.named_nas_parameters():
                 q.copy_(torch.rand(q.shape) * 1.2)
